@@ -597,6 +597,7 @@ class PCACDDriver(Driver):
 
         self.M = M
         self.rec = []
+        self.memo = stubs.Memo()
         npcs = self.cfg.get("num_pcs", 1)
         sym_proj = self.cfg.get("sym_proj", False)
         rec = self.rec
@@ -640,16 +641,19 @@ class PCACDDriver(Driver):
         d = self.M.PCACD(**self.params)
         rec = self.rec
 
+        memo = self.memo
+
         def hist(sample, bins, bin_range):
             rec.append(("hist", sample, bins, bin_range))
-            return {"h": len(rec)}
+            return {"hist_of": stubs.keyof((sample, bins, bin_range))}
 
         def kde(sample):
             rec.append(("kde", sample))
-            return {"k": len(rec)}
+            return {"kde_of": stubs.keyof(sample)}
 
         def div(a, b):
-            r = cur().real("score")
+            # a deterministic function of the two densities
+            r = memo.get("score", (a, b), lambda: cur().real("score"))
             rec.append(("div", a, b, r))
             return r
 
